@@ -4,23 +4,27 @@ import os
 from vf import findings
 from vf import universe as U
 from vf import universe_b  # noqa: F401  (registers group B zones)
+from vf import universe_c  # noqa: F401  (registers group C zones)
 from vf.prng import mix
 
 GROUP_B = ("Z5", "Z6", "Z7", "Z8")
+GROUP_C = ("Z9",)
 FX_Z7 = 24000  # documents of Z7 whose fix runs are observed by the parser-level monitors
 
-QUICK = {"Z2": 24000, "Z3": 5000, "Z4": 5000, "Z5": 12000, "Z7": 4000, "Z8": 4000}
+QUICK = {"Z2": 24000, "Z3": 5000, "Z4": 5000, "Z5": 12000, "Z7": 4000, "Z8": 4000, "Z9": 6000}
 
 
-def plan_docs(tier, seed, complete=False, quick=None, zones=("Z1", "Z2", "Z3", "Z4", "Z5", "Z6", "Z7", "Z8"), z1_all=True, limit=None, check=None, force_b=False, ranges=None, fx=0):
+def plan_docs(tier, seed, complete=False, quick=None, zones=("Z1", "Z2", "Z3", "Z4", "Z5", "Z6", "Z7", "Z8", "Z9"), z1_all=True, limit=None, check=None, force_b=False, ranges=None, fx=0):
     quick = quick or QUICK
     items = []
     zinfo = {}
     for z in zones:
-        if not force_b:
-            if z in GROUP_B and not group_b_active(check):
-                continue
-            if z not in GROUP_B and only_group_b():
+        grp = "B" if z in GROUP_B else "C" if z in GROUP_C else "A"
+        only = os.environ.get("VERIF_GROUP")
+        if only and only != grp and not (force_b and not only):
+            continue
+        if not force_b or grp == "C":
+            if grp != "A" and not only and not group_active(check, grp):
                 continue
         n = U.size(z)
         if limit and z in limit:
@@ -36,7 +40,7 @@ def plan_docs(tier, seed, complete=False, quick=None, zones=("Z1", "Z2", "Z3", "
         idx = [pool[i] for i in idx] if pool is not None else list(idx)
         zinfo[z] = {"universe": n, "run": len(idx)}
         items.extend(f"{z}:{i}" for i in idx)
-    if fx and (group_b_active(check) or force_b):
+    if fx and (group_b_active(check) or force_b) and os.environ.get("VERIF_GROUP") in (None, "", "B"):
         # group B also holds the fix-mode internal-parse workload (FX:<key>)
         n = FX_Z7
         idx = range(n) if (complete or tier == "thorough") else U.pick("Z7", seed + 77, fx, 0, n)
@@ -53,6 +57,11 @@ def group_b_active(check):
     if os.environ.get("VERIF_GROUP") == "A":
         return False
     return bool(check) and os.path.exists(findings.baseline_path(check + ".B"))
+
+
+def group_active(check, grp):
+    """A group of zones takes part in a check once its baseline file exists."""
+    return bool(check) and os.path.exists(findings.baseline_path(check + "." + grp))
 
 
 def only_group_b():
